@@ -13,7 +13,8 @@ LEVEL = 'exploration'
 SHARDS = {'quick': 4, 'thorough': 16}
 RULE = ('A Hypothesis example is a batch of input calls (alias or resolver-formatted alias, static / instance, every '
         'capture selection, positional / keyword arguments, argument trees up to depth 3 over numbers, strings, bytes, '
-        'None, booleans, lists, tuples, sets, string-keyed dicts, plain objects) made inside one operation, each '
+        'None, booleans, lists, tuples, sets, string-keyed dicts, plain objects; occasionally arguments whose serialised form '
+        'has thousands of characters, with a sibling differing only at the end) made inside one operation, each '
         'returning its own token. The batch is recorded by a child interpreter started with one PYTHONHASHSEED into a '
         'file cassette and replayed by a child started with another (seeds 0, 1, 2, 12345, 4294967295; all ordered '
         'pairs over a run). Relations: (1) equal => same key: the replayed call is a structurally equal reconstruction '
@@ -207,6 +208,7 @@ def check_batch(ctx, case):
     nt = a != b and any(nontrivial_tree(s['a']) or nontrivial_tree(s['b']) or
                         prog['ins'][s['i']].get('capture', 'all') not in ('all',) for s in prog['steps'])
     ctx.case(case, nt, classes=('seeds:%s' % ('same' if a == b else 'different'), 'typed-equal:%d' % min(len(typed_equal), 3), 'batch:%d' % min(len(steps), 10)) +
+             (('big-argument',) if any(x.get('big') for x in prog['steps']) else ()) +
              tuple(set('capture:' + prog['ins'][s['i']].get('capture', 'all') for s in prog['steps'])) +
              tuple(set('kind:' + prog['ins'][s['i']]['kind'] for s in prog['steps'])))
 
@@ -216,6 +218,29 @@ def batches(draw):
     vals = V.values
     ins, _ = PS.fix_decls(draw(st.lists(PS.input_decls({'handler': st.just('none')}), min_size=1, max_size=3)), [])
     steps = [draw(PS.in_step(ins, vals, behs=('ret',))) for _ in range(draw(st.integers(1, 8)))]
+    # large captured arguments (long id lists, big dicts, long strings): keys of several thousand characters
+    for _ in range(draw(st.sampled_from([0, 0, 1]))):
+        s = draw(PS.in_step(ins, vals, behs=('ret',)))
+        if ins[s['i']]['kind'] != 'property':
+            big = draw(st.sampled_from(['list', 'dict', 'str']))
+            n = draw(st.integers(150, 400))
+            if big == 'list':
+                s['a'] = list(range(n))
+            elif big == 'dict':
+                s['a'] = {'t': 'dict', 'v': [['key%d' % i, i] for i in range(n)]}
+            else:
+                s['a'] = 'x' * (n * 10)
+            s['big'] = True
+            steps.append(s)
+            # and a sibling that differs only at the very end
+            t = copy.deepcopy(s)
+            if big == 'list':
+                t['a'] = list(range(n - 1)) + [-1]
+            elif big == 'dict':
+                t['a'] = {'t': 'dict', 'v': [['key%d' % i, i] for i in range(n - 1)] + [['key%d' % (n - 1), -1]]}
+            else:
+                t['a'] = 'x' * (n * 10 - 1) + 'y'
+            steps.append(t)
     # near-duplicates: same call with one argument changed, to probe collisions
     for _ in range(draw(st.integers(0, 3))):
         s = copy.deepcopy(steps[draw(st.integers(0, len(steps) - 1))])
